@@ -1256,12 +1256,13 @@ func (r *Runtime) typedArrayProto_toLocaleString(call FunctionCall) Value {
 		length := ta.length
 		var buf StringBuilder
 		for i := 0; i < length; i++ {
-			ta.viewedArrayBuf.ensureNotDetached(true)
 			if i > 0 {
 				buf.WriteRune(',')
 			}
-			item := ta.typedArray.get(ta.offset + i)
-			r.writeItemLocaleString(item, &buf)
+			// Get(O, Pk): undefined (contributing the empty string) once an element's toLocaleString has detached the buffer
+			if ta.isValidIntegerIndex(i) {
+				r.writeItemLocaleString(ta.typedArray.get(ta.offset+i), &buf)
+			}
 		}
 		return buf.String()
 	}
